@@ -377,6 +377,10 @@ class Rewriter:
             if part == 'sig':
                 continue
             cnt = text.count(old)
+            if cnt == 0:
+                # the expression this rewrite was written for is gone (the body was edited): nothing to rewrite
+                self.log.append((rule + '-skipped', fid, 'anchor |%s| not present' % old))
+                continue
             if cnt != 1:
                 raise ExtractError('%s: @replace %s anchor |%s| occurs %d times (need exactly 1)' % (spec.origin, rule, old, cnt))
             text = text.replace(old, new)
@@ -721,6 +725,7 @@ class Generator:
         # body with loop / body splices
         m = self.masks[rel]
         loops = rsparse.find_loops(s, m, fn.body_open + 1, fn.body_close)
+        self.fninfo[fnid]['unannotated_loops'] = sum(1 for k in range(1, len(loops) + 1) if not sp.loops.get(k, {}).get('invariant'))
         for k in sp.loops:
             if k < 1 or k > len(loops):
                 raise ExtractError('lost anchor: %s refers to loop %d, function %s has %d loops'
